@@ -14,11 +14,17 @@ const (
 // measure runs the scenario once with the released command held back and returns the number of
 // scheduler steps of that run: the range of injection instants.
 func measure(p uciParams) int {
+	if noMeasure {
+		return 120
+	}
 	p.Release = 1 << 30
 	sc := buildUCI(mustJSON(p))
 	s, _ := explore.RunOnce(sc, nil)
 	return s.Steps
 }
+
+// noMeasure is set by the free-running race pass: no scheduler is ever started there.
+var noMeasure bool
 
 func uciScenario(p uciParams) explore.Scenario {
 	sc := buildUCI(mustJSON(p))
